@@ -192,11 +192,11 @@ EPart(i) ==
   /\ Put("part", CertF(i), HalfC)
   /\ UNCHANGED <<nver, nkey, dep>> /\ EnvFrame
 ERm(f) ==
-  /\ EnvOK("rm") /\ disk[f].k # "none"
+  /\ EnvOK("rm") /\ disk[f].k # "none" /\ Idle(PairOfF(f))
   /\ Put("rm", f, NoC)
   /\ UNCHANGED <<nver, nkey, dep>> /\ EnvFrame
 EUnread(f) ==
-  /\ EnvOK("unread") /\ disk[f].k # "none"
+  /\ EnvOK("unread") /\ disk[f].k # "none" /\ Idle(PairOfF(f))
   /\ Put("unread", f, [disk[f] EXCEPT !.un = ~@])
   /\ UNCHANGED <<nver, nkey, dep>> /\ EnvFrame
 
@@ -289,5 +289,6 @@ TypeOK == /\ life \in {"new", "run", "failed", "stopped"}
           /\ envLeft \in 0..MaxEnv /\ forceLeft \in 0..MaxForce /\ now \in 0..MaxTime
 \* design-level facts the predicates rest on
 ServedIsComplete == \A j \in 1..Len(certs) : [i |-> j, v |-> certs[j].v] \in obs.seen
+NeverWild == ~obs.wild
 NeverEmptyOnceRunning == life \in {"run", "stopped"} => Len(certs) = NPairs
 =============================================================================
